@@ -319,7 +319,7 @@ func (g *goTr) expr(x *Ex) string {
 				return fmt.Sprintf("func() %s {\n\t\tif %s {\n\t\t\treturn %s\n\t\t}\n\t\treturn %s\n\t}()", g.iteType, g.expr(x.Args[0]), g.expr(x.Args[1]), g.expr(x.Args[2]))
 			}
 			return fmt.Sprintf("govcIte(%s, %s, %s)", g.expr(x.Args[0]), g.expr(x.Args[1]), g.expr(x.Args[2]))
-		case "old", "called", "ncalls", "result", "arg", "visited", "in", "as", "typeIs", "iface", "samearray":
+		case "old", "called", "ncalls", "captured", "result", "arg", "visited", "in", "as", "typeIs", "iface", "samearray":
 			return g.fail("%s(...) has no meaning outside the verifier", x.Name)
 		}
 		if gh, ok := g.eng.cs.Ghosts[x.Name]; ok {
